@@ -72,6 +72,23 @@ class Rule(object):
     def note(self, s):
         self.notes.append(s)
 
+    def names(self, f, *names):
+        """the rule reads conditions of f as printed text, i.e. it depends on the names of these locals / parameters: if one
+        of them is gone (a rename, not a change of behaviour) the rule has lost its anchor - analysis-broken, not a violation"""
+        have = set()
+        for n in f.nodes.values():
+            if n["k"] == "ref" and n.get("d") in ("lv", "pv", "sl"):
+                have.add(n["n"])
+            elif n["k"] == "decl":
+                for v in n.get("vars", ()):
+                    have.add(v["n"])
+        for p in f.d.get("params", ()):
+            have.add(p["n"])
+        missing = [x for x in names if x not in have]
+        if missing:
+            raise AnalysisBroken("%s: %s no longer has the local(s)/parameter(s) %s that the rule's conditions are written over (renamed?)"
+                                 % (self.id, f.qn, ", ".join(missing)))
+
 
 class Ctx(object):
     def __init__(self, pid, tier):
